@@ -96,8 +96,8 @@ def run_case(ctx, idx, case):
         for op in case["build"]:
             if op["k"] not in ("reopen", "gc"):
                 s.apply(op)
-        if case["seed"] % 2 == 0:
-            # half of the cases also hold a drillhole group with concatenated holes and data (stored inside the group's
+        if case["seed"] % 2 == 0 or case["seed"] % 3 == 0:
+            # half of the cases (and every case whose read-only handle comes from the open fallback) also hold a drillhole group with concatenated holes and data (stored inside the group's
             # own arrays: their write path differs from that of ordinary entities)
             from geoh5py.groups import DrillholeGroup
             from geoh5py.objects import Drillhole
